@@ -183,6 +183,8 @@ type run struct {
 	stop2Once sync.Once
 	wg2       sync.WaitGroup
 	survOK    int32 // answered survivor requests
+	survH1OK      int32 // answered requests of the HTTP/1.1 survivor
+	survH1Redials int32 // connections it had to open again after a "Connection: close"
 	survDead  int32 // the survivor's connection failed (recorded as a result)
 }
 
@@ -406,6 +408,73 @@ func (r *run) survivor() {
 		select {
 		case <-r.stop2:
 		case <-time.After(120 * time.Millisecond):
+		}
+	}
+}
+
+// survivorH1 (hot upgrade only): one HTTP/1.1 keep-alive client whose connection was opened before the signal and
+// whose requests are uploads that reach the proxy in several reads. It goes on through the whole switch and beyond the
+// exit of the old process: "other existing connections keep being served by the old process while it drains" - the old
+// process either serves such a connection to the end or hands it back cleanly ("Connection: close" on a complete
+// response, which this client honours by connecting again); a request that is cut off when the old process finally
+// leaves failed because of the switch. Its first failure is recorded and ends the client.
+func (r *run) survivorH1() {
+	defer r.wg2.Done()
+	const id = 11
+	halted := func() bool {
+		select {
+		case <-r.stop2:
+			return true
+		default:
+			return false
+		}
+	}
+	dial := func() *h1conn {
+		for !halted() {
+			c, err := r.dial("Http1")
+			if err == nil {
+				h := c.(*h1conn)
+				h.pieces, h.gap = 6, 3*time.Millisecond
+				return h
+			}
+			time.Sleep(5 * time.Millisecond)
+		}
+		return nil
+	}
+	var conn *h1conn
+	for conn == nil && !halted() && !r.isSignalled() {
+		conn = dial()
+	}
+	if conn == nil {
+		return
+	}
+	defer func() {
+		if conn != nil {
+			conn.close()
+		}
+	}()
+	rnd := xs((r.cs.Seed ^ 0x2545f4914f6cdd1d) | 1)
+	for seq := 0; !halted(); seq++ {
+		p := newPlan(fmt.Sprintf("k%d-survh1-%d", r.no, seq), 600+rnd.n(6000), 1+rnd.n(300), 0)
+		r.ups["Http1"].add(p)
+		res := &result{Client: id, Seq: seq, Proto: "Http1", Token: p.Token, KeepAlive: true, Survivor: true, StartMs: r.ms(), ReqSize: p.ReqSize, RespSize: p.RespSize, plan: p}
+		conn.do(p, nil, res)
+		res.EndMs = r.ms()
+		r.record(res)
+		if !res.ok() {
+			return
+		}
+		atomic.AddInt32(&r.survH1OK, 1)
+		if !conn.reusable() { // the proxy said "Connection: close" on a complete response: connect again, as any client would
+			conn.close()
+			if conn = dial(); conn == nil {
+				return
+			}
+			atomic.AddInt32(&r.survH1Redials, 1)
+		}
+		select {
+		case <-r.stop2:
+		case <-time.After(60 * time.Millisecond):
 		}
 	}
 }
@@ -673,6 +742,9 @@ type outcome struct {
 	StopConnMs  int64     `json:"stop_connection_seen_ms,omitempty"`
 	// hot upgrade: requests answered on the survivor's (handed-over) connection after the old process had exited
 	SurvivorAfterExit int  `json:"survivor_requests_after_old_exit,omitempty"`
+	// hot upgrade: the HTTP/1.1 keep-alive survivor (uploads in several reads): answered requests / reconnects after "Connection: close"
+	SurvivorH1OK      int `json:"http1_survivor_requests,omitempty"`
+	SurvivorH1Redials int `json:"http1_survivor_reconnects,omitempty"`
 	PhaseMissed       bool `json:"phase_missed,omitempty"`
 	probes            []probe
 }
@@ -752,6 +824,8 @@ func execute(cs Case) (o *outcome, r *run, infra string) {
 		go r.client(nClients)
 		r.wg2.Add(1)
 		go r.survivor()
+		r.wg2.Add(1)
+		go r.survivorH1()
 	}
 
 	// upstream-side phases: the coordinator fires when the upstream reports the phase
@@ -858,6 +932,7 @@ func execute(cs Case) (o *outcome, r *run, infra string) {
 			o.SurvivorAfterExit = int(atomic.LoadInt32(&r.survOK) - at)
 		}
 		r.haltSurvivor()
+		o.SurvivorH1OK, o.SurvivorH1Redials = int(atomic.LoadInt32(&r.survH1OK)), int(atomic.LoadInt32(&r.survH1Redials))
 	}
 	ex, code, at := r.p.Exited()
 	o.Exited, o.ExitCode = ex, code
